@@ -275,6 +275,13 @@ def run(res, tier, seed, shard, nshards):
             for i in range(150 if tier == "quick" else 2500):
                 reused_object_case(res, W, random.Random((seed, "reuse", i).__repr__()), i)
         H.in_sim(reuse, watchdog=600)
+    # slow legal traffic on connections set up in other ways (through an HTTP CONNECT proxy, with its own proxy timeout; with a timeout
+    # given to connect() only): pauses shorter than the connection's own timeout - or any pause when it has none - lose nothing
+    if shard == 3 % nshards:
+        def slow():
+            for i in range(24 if tier == "quick" else 400):
+                slow_setup_case(res, W, random.Random((seed, "slow", i).__repr__()), i)
+        H.in_sim(slow, watchdog=600)
     if shard == 0:
         real_tls_coalescing(res, W)
 
@@ -341,6 +348,63 @@ def reused_object_case(res, W, rng, i):
     if got != exp:
         res.violation("segmentation-dependent:value-mismatch", f"the same object connected again after its first connection was cut at byte {k} of {len(first)} ({how}, "
                       f"{calls1} receive calls had returned): the second connection delivered {got}, its server sent {exp}", case, seg_kind="reused-object")
+    try:
+        w.shutdown()
+    except Exception:  # noqa
+        pass
+
+
+def slow_setup_case(res, W, rng, i):
+    from ..sim import sched
+    S = sched.CURRENT
+    H.reset_process_state()
+    via = ["proxy", "proxy", "direct"][i % 3]
+    timeout = [None, None, 6.0, 3.0][(i // 3) % 4]
+    ptimeout = [0.5, 1.0, None, 0.2][(i // 12) % 4]
+    net_ = H.make_net()
+    conns = []
+    kw = {}
+    if via == "proxy":
+        net_.add_host("proxy.test", ["203.0.113.9"])
+        net_.listen("203.0.113.9", 3128, ("accept", lambda c: (conns.append(c), H.TunnelPeer(c))))
+        kw = dict(http_proxy_host="proxy.test", http_proxy_port=3128, proxy_type="http")
+    else:
+        net_.add_host("target.test", ["198.51.100.7"])
+        net_.listen("198.51.100.7", 8123, ("accept", lambda c: (conns.append(c), H.HandshakePeer(c))))
+    if ptimeout is not None:
+        kw["http_proxy_timeout"] = ptimeout
+    case = {"gen": "slow-setup", "via": via, "timeout": timeout, "http_proxy_timeout": ptimeout}
+    res.case(("slow-setup", via, timeout, ptimeout, i), nontrivial=True)
+    res.count("slow_setup_cases")
+    try:
+        w = W.create_connection("ws://target.test:8123/", timeout=timeout, **kw)
+    except Exception as x:  # noqa
+        res.violation("segmentation-dependent:unexpected-exception", f"connecting ({via}, timeout {timeout}, http_proxy_timeout {ptimeout}): {type(x).__name__}: {x}", case, seg_kind="slow-setup")
+        return
+    conn = conns[0]
+    gap_cap = (timeout or 9.0) * 0.8
+    msgs = []
+    t = S.now
+    for k in range(3):
+        body = f"m{k}".encode() * (1 + k)
+        msgs.append(body.decode())
+        fr = R.encode(R.TEXT, body)
+        cut = rng.randrange(1, len(fr))
+        t += round(rng.uniform(0.3, gap_cap), 2)
+        S.at(t, conn.deliver, fr[:cut])
+        t += round(rng.uniform(0.3, gap_cap), 2)
+        S.at(t, conn.deliver, fr[cut:])
+    got = []
+    for _ in msgs:
+        try:
+            got.append(("value", w.recv()))
+        except Exception as x:  # noqa
+            got.append(("exc", type(x).__name__ + ": " + str(x)[:60]))
+            break
+    if got != [("value", m) for m in msgs]:
+        res.violation("segmentation-dependent:unexpected-exception" if any(k == "exc" for k, _ in got) else "segmentation-dependent:value-mismatch",
+                      f"{via} connection with timeout {timeout} (http_proxy_timeout {ptimeout}), pieces arriving with pauses below {gap_cap:.1f} s: delivered {got}, "
+                      f"the server sent {msgs}", case, seg_kind="slow-setup")
     try:
         w.shutdown()
     except Exception:  # noqa
